@@ -20,6 +20,12 @@ PLAN = {
     "C13": {"mc": ["MC_Lease"], "gen": [("Gen_Seek", 260, 6000, 32, True)]},
     "C14": {"mc": ["MC_Lease"], "gen": [("Gen_Timing", 260, 6000, 30, True)]},
     "C15": {"mc": ["MC_Lease"], "gen": [("Gen_Prune", 260, 6000, 34, True)]},
+    # C09: every mutating step of the generated histories is re-run with the k-th
+    # database interaction failing (k = 1, 2, ... incl. BEGIN and COMMIT), then with
+    # the request cancelled at the k-th interaction
+    "C09": {"mc": ["MC_Lease"], "gen": [("Gen_Mixed", 14, 600, 25, False), ("Gen_Prune", 8, 300, 34, False),
+                                         ("Gen_DeadLetter", 8, 300, 32, False), ("Gen_Seek", 8, 300, 32, False)],
+            "fault": ["fail", "cancel"]},
 }
 
 LEVEL_ASSUMPTIONS = [
@@ -74,6 +80,8 @@ def touches(prop, events):
         return any(e["op"] in ("Get", "List") or (e["op"].startswith("Create") and e["code"] == "AlreadyExists") for e in events)
     if prop == "C15":
         return any(e["op"].startswith("Prune") and e["post"]["del"] for e in events)
+    if prop == "C09":
+        return any(e["op"] == "Failed" and e["kind"] in ("exec", "commit") for e in events)
     return True
 
 
@@ -118,7 +126,10 @@ def _run(ctx, replay):
             n = nq if tier == "quick" else nt
             hs = vlib.tlc_gen(ctx, mod, n, depth * 2 + 12, seed * 7919 + gi)
             for i, h in enumerate(hs):
-                scen.append({"id": "%s-%d-%d" % (mod, seed, i), "unit_ms": 1000, "steps": h, "drain": drain, "family": mod})
+                # fault enumeration re-runs every step many times: a coarser time unit keeps
+                # the nominal clock ahead of the wall clock
+                scen.append({"id": "%s-%d-%d" % (mod, seed, i), "unit_ms": 20000 if plan.get("fault") else 1000,
+                             "steps": h, "drain": drain, "family": mod})
     if not scen:
         raise ToolError("no scenarios generated")
     sp = os.path.join(ctx.scratch, "scenarios.ndjson")
@@ -126,7 +137,18 @@ def _run(ctx, replay):
 
     # (3) execute on the real code, validate every step with TLC
     tp = os.path.join(ctx.scratch, "traces.ndjson")
-    res = vlib.run_busexec(ctx, sp, tp)
+    if plan.get("fault"):
+        res = []
+        with open(tp, "w") as out:
+            for mode in plan["fault"]:
+                tpm = os.path.join(ctx.scratch, "traces_%s.ndjson" % mode)
+                res += vlib.run_busexec(ctx, sp, tpm, fault=mode)
+                for ln in open(tpm):
+                    # keep trace ids distinct per fault mode
+                    out.write(ln.replace('"tr":"', '"tr":"%s:' % mode, 1))
+        scen = [dict(s, id="%s:%s" % (mode, s["id"]), fault=mode) for mode in plan["fault"] for s in scen]
+    else:
+        res = vlib.run_busexec(ctx, sp, tp)
     val = vlib.validate(ctx, tp)
 
     # attribute
@@ -153,7 +175,7 @@ def _run(ctx, replay):
         if v["tr"] in seen:
             continue
         seen.add(v["tr"])
-        path = vlib.save_replay(ctx, v["tr"], {"scenario": scen_by_id[v["tr"]], "seed": ctx.seed, "violation": v})
+        path = vlib.save_replay(ctx, v["tr"].replace(":", "_"), {"scenario": scen_by_id[v["tr"]], "seed": ctx.seed, "violation": v, "fault": scen_by_id[v["tr"]].get("fault")})
         print("VIOLATION property=%s replay=%s clause=%s trace=%s step=%d op=%s" % (prop, path, v["clause"], v["tr"], v["i"], v["op"]))
         rc = 1
         if len(seen) >= 10:
@@ -180,7 +202,16 @@ def _run(ctx, replay):
         "scenarios_discarded": len([r for r in res if r["status"] != "ok"]),
         "known_findings_hit": {k: h["n"] for k, h in hits.items()},
     }
-    vlib.write_evidence(ctx, "model_checking", cov, LEVEL_ASSUMPTIONS, len(new))
+    level = "model_checking"
+    if plan.get("fault"):
+        level = "fault_enumeration"
+        failed = [e for evs in by_tr.values() for e in evs if e["op"] == "Failed"]
+        cov["evaluations"] = len(failed)
+        cov["distinct_nontrivial"] = len({(e["of"], e["k"], e["kind"], e["mode"]) for e in failed if e["kind"] != "begin"})
+        cov["rule"] = "one evaluation = one execution of a mutating operation on the real code with its k-th database interaction (BEGIN / statement / COMMIT) failing or cancelling the request, followed by a byte-level comparison of all five tables, an awaiter check, and TLC validation of the Failed step; every k up to the length of the operation is enumerated for every mutating step of every generated history; non-trivial = the fault hit after the transaction had begun; distinct = distinct (operation, k, interaction kind, fault kind)"
+        cov["by_operation"] = dict(collections.Counter(e["of"] for e in failed))
+        cov["samples"] = [{k: v for k, v in e.items() if k != "post"} for e in failed[:3]] or cov["samples"]
+    vlib.write_evidence(ctx, level, cov, LEVEL_ASSUMPTIONS + (["faults are injected at the database/sql driver boundary; failures inside SQLite after a statement was applied are out of reach"] if plan.get("fault") else []), len(new))
     if rc == 0:
         print("OK property=%s tier=%s seed=%d mc_states=%d traces=%d steps=%d nontrivial=%d wall=%.0fs" % (
             prop, tier, ctx.seed, states, val["traces"], val["steps"], len(nontrivial), time.time() - ctx.t0))
